@@ -310,3 +310,67 @@ pub fn run(run: &mut Run) {
     run.assume("scheduling points = every acquisition of a shim RwLock (Database.map, Watchers.map, connections, to_snapshot, SelectedDatabase) plus the apply->replicate yield point; no unsafe code in the crate, so lock granularity covers all shared-memory races");
     run.assume("linearizability reference = the implementation itself run sequentially in every merge order of the programs; compared on replies and on the client-visible final state (live keys, values, versions)");
 }
+
+/// `./check replay <file>` for an ILV counterexample of C02 / C04 / C19: the recorded choice
+/// sequence is executed once more on a fresh world; the schedule, every reply, the final state and
+/// (where the check uses one) the replica's state are printed.  Run twice to see the same output.
+pub fn replay_ilv(prop: &str, programs: &[Vec<String>], choices: &[usize]) -> i32 {
+    let setup = match prop {
+        "C02" => setup_c02(3),
+        "C04" => Setup { strategy: "none", init: vec!["set k 1".into(), "set k 1".into(), "set c 5".into()], session_init: (0..2).map(|_| vec!["use-db t tok".to_string()]).collect(), check_replica: true },
+        "C19" => Setup { strategy: "newer", init: vec!["set k 1".into(), "set k 1".into()], session_init: vec![vec!["use-db t tok".to_string()], vec!["use-db t tok".to_string()], vec!["use-db t tok".to_string(), "watch k".to_string()]], check_replica: true },
+        _ => {
+            eprintln!("no ILV replayer for {}", prop);
+            return 2;
+        }
+    };
+    let mut outputs = vec![];
+    for round in 0..2 {
+        let (mut w, mut sessions) = build(&setup);
+        let ctx = w.node.ctx.clone();
+        w.spectators = sessions.split_off(programs.len().min(sessions.len()));
+        let bodies: Vec<Box<dyn FnOnce(&std::sync::Arc<Sched>) -> (Vec<OpRec>, crate::world::Session) + Send>> = sessions.into_iter().enumerate().map(|(tid, s)| body(w.node.dbs.clone(), s, tid, programs[tid].clone())).collect();
+        let x = match run_once(&ctx, bodies, choices) {
+            Ok(x) => x,
+            Err(RunError::Hang(m)) => {
+                eprintln!("machinery: {}", m);
+                return 2;
+            }
+        };
+        let mut out = String::new();
+        if let Some(d) = &x.diverged {
+            eprintln!("machinery: {}", d);
+            return 2;
+        }
+        out.push_str(&format!("schedule: {:?}\n", x.points.iter().map(|p| p.what.clone()).collect::<Vec<_>>()));
+        if let Some(d) = &x.deadlock {
+            out.push_str(&format!("DEADLOCK: {}\n", d));
+        }
+        for r in x.results.iter().flatten() {
+            for o in r.0.iter() {
+                out.push_str(&format!("  t{}#{} `{}` -> {} {:?} [{}..{}]\n", o.tid, o.idx, o.line, o.resp, o.msgs, o.call, o.ret));
+            }
+        }
+        let fin = final_view(&w.node, "t");
+        out.push_str(&format!("final state: {:?}\n", fin));
+        let watcher: Vec<String> = w.spectators.iter_mut().flat_map(|s| s.drain()).collect();
+        if !watcher.is_empty() {
+            out.push_str(&format!("watcher stream: {:?}\n", watcher));
+        }
+        if setup.check_replica {
+            let stream = w.node.drain_queues().0;
+            out.push_str(&format!("replication queue: {:?}\nreplica: {:?}\n", stream, replica_view(&setup, &stream)));
+        }
+        w.node.remove_dir();
+        if round == 0 {
+            print!("{}", out);
+        }
+        outputs.push(out);
+    }
+    if outputs[0] != outputs[1] {
+        eprintln!("machinery: the same choice sequence gave two different executions");
+        return 2;
+    }
+    println!("(replayed twice: identical)");
+    0
+}
